@@ -565,9 +565,21 @@ func check(id, tier string) int {
 	knownHit := map[string]bool{}
 	var unrepro []*replay
 	var lines []string
+	// a harness-level complaint (e.g. an uncontrolled goroutine touching shimmed state) ends the run with exit 2 — unless
+	// a property violation was observed as well: a change that starts goroutines of its own typically produces both, and
+	// the violation is the finding (the complaint is then printed as a note)
+	var harnessErrs []*replay
 	for _, v := range viols {
 		if strings.HasPrefix(v.Sig, "harness-") {
-			fatal(2, "HARNESS ERROR: %s: %s", v.Sig, v.Msg)
+			harnessErrs = append(harnessErrs, v)
+		}
+	}
+	if len(harnessErrs) == len(viols) && len(viols) > 0 {
+		fatal(2, "HARNESS ERROR: %s: %s", harnessErrs[0].Sig, harnessErrs[0].Msg)
+	}
+	for _, v := range viols {
+		if strings.HasPrefix(v.Sig, "harness-") {
+			continue
 		}
 		v.Sig = strings.TrimPrefix(v.Sig, "!")
 		isKnown := false
@@ -692,6 +704,17 @@ func check(id, tier string) int {
 	}
 	for _, s := range scen {
 		s.Outcomes = nil
+	}
+	if len(harnessErrs) > 0 {
+		if newViol == 0 {
+			fatal(2, "HARNESS ERROR: %s: %s", harnessErrs[0].Sig, harnessErrs[0].Msg)
+		}
+		m := harnessErrs[0].Msg
+		if len(m) > 300 {
+			m = m[:300]
+		}
+		lines = append(lines, fmt.Sprintf("note: besides the violation(s) the harness complained: %s: %s", harnessErrs[0].Sig, strings.ReplaceAll(m, "\n", " ")))
+		exhaustive = false
 	}
 	evDir := envOr("PIKEMC_EVIDENCE_DIR", filepath.Join(verifDir, "evidence")) // runs on scratch trees write elsewhere
 	os.MkdirAll(evDir, 0o755)
